@@ -632,6 +632,10 @@ class Interp:
                 v = self.decide(("is",) + tuple(sorted([l, r], key=repr)))
             return v if isinstance(op, ast.Is) else not v
         if isinstance(op, (ast.In, ast.NotIn)):
+            tbl = self._global_table(r)
+            if tbl is not None:
+                # membership in a module-level literal table
+                r = const(tuple(tbl))
             if r[0] in ("tuple", "list") and all(is_const(x) for x in r[1]):
                 v = any(self.equal(l, x) for x in r[1])
             elif r[0] == "const" and isinstance(r[1], (tuple, frozenset,
@@ -797,6 +801,20 @@ class Interp:
                     return ("copyof", base)
                 return ("slice", base, lo, hi)
             idx = self.eval(sl, env)
+            if isinstance(node.ctx, ast.Load) and base[0] == "global":
+                tbl = self._global_dict(base)
+                if tbl is not None and all(isinstance(
+                        k, (str, int, type(None))) for k in tbl):
+                    # lookup in a module-level literal table: the value of
+                    # the key the path has established (KeyError otherwise)
+                    for k, v in tbl.items():
+                        if self.equal(idx, const(k)):
+                            if isinstance(v, (str, int, float, bool,
+                                              type(None), tuple)):
+                                return const(v)
+                            break
+                    else:
+                        raise _Raise("builtins.KeyError", (idx,), node)
             if isinstance(node.ctx, ast.Load):
                 try:
                     hit = self.path.heap.get(("index", base, idx))
@@ -962,6 +980,55 @@ class Interp:
 
     def eval_int(self, node, env):
         return self.eval(node, env)
+
+    def _global_dict(self, t):
+        if t[0] != "global" or "." not in t[1]:
+            return None
+        modname, _, nm = t[1].rpartition(".")
+        mod = self.m.modules.get(modname)
+        if mod is None:
+            for f in self.fstack:
+                if f.module.name == modname:
+                    mod = f.module
+        if mod is None or len(mod.assigns.get(nm, ())) != 1:
+            return None
+        try:
+            v = self.m.fold(mod, mod.assigns[nm][0])
+        except Exception:
+            return None
+        return v if isinstance(v, dict) else None
+
+    def _global_table(self, t):
+        """Keys/elements of a module-level literal dict / list / set that a
+        term names (also `<table>.keys()` / `.values()`), else None."""
+        which = "keys"
+        if t[0] == "call" and t[1][0] == "attr" and t[1][2] in (
+                "keys", "values") and not t[2]:
+            which = t[1][2]
+            t = t[1][1]
+        elif t[0] == "call" and t[1][0] == "global" and not t[2] \
+                and t[1][1].rpartition(".")[2] in ("keys", "values"):
+            which = t[1][1].rpartition(".")[2]
+            t = ("global", t[1][1].rpartition(".")[0])
+        if t[0] != "global" or "." not in t[1]:
+            return None
+        modname, _, nm = t[1].rpartition(".")
+        mod = self.m.modules.get(modname)
+        if mod is None:
+            for f in self.fstack:
+                if f.module.name == modname:
+                    mod = f.module      # a reference module of /verif/spec
+        if mod is None or len(mod.assigns.get(nm, ())) != 1:
+            return None
+        try:
+            v = self.m.fold(mod, mod.assigns[nm][0])
+        except Exception:
+            return None
+        if isinstance(v, dict):
+            return list(v.keys() if which == "keys" else v.values())
+        if isinstance(v, (list, set, frozenset, tuple)) and which == "keys":
+            return list(v)
+        return None
 
     def global_term(self, name):
         # nested function defined in an enclosing inlined frame is in env;
@@ -1608,6 +1675,13 @@ def is_unknown_helper(f):
     name = getattr(f, "name", None) or f.qualname.rsplit(".", 1)[-1]
     if not name.startswith("_") or name.startswith("__"):
         return False
+    node = getattr(f, "node", None)
+    for d in getattr(node, "decorator_list", ()):
+        # a decorator (a cache, a wrapper) changes what a call means: such a
+        # helper stays an opaque call
+        if getattr(d, "id", getattr(d, "attr", None)) not in (
+                "staticmethod", "classmethod"):
+            return False
     return name not in spec_vocabulary()
 
 
